@@ -85,6 +85,11 @@ func (c *Ctx) judgeLife(prop string, sc LifeScenario, r LifeResult, tag string) 
 		final = "0"
 		// not a timing verdict: the dump must show library goroutines blocked on each other
 		blocked := strings.Contains(r.Stuck, "[chan send]") || strings.Contains(r.Stuck, "[semacquire]") || strings.Contains(r.Stuck, "[sync.Mutex.Lock]") || strings.Contains(r.Stuck, "[sync.WaitGroup.Wait]") || strings.Contains(r.Stuck, "[select]")
+		// a send goroutine inside `write` waiting on a timer is in a flood-control hold: it will come out of it by itself
+		// (and then notice the teardown, or take the next queued line - with probability 1/2 each time): slow, not stuck
+		if strings.Contains(r.Stuck, "write<send [chan receive]") || strings.Contains(r.Stuck, "[sleep]") {
+			blocked = false
+		}
 		if blocked {
 			c.SpecFail("spec", desc, "", "teardown did not complete: DISCONNECTED never delivered; library goroutines: "+r.Stuck, rp)
 		} else {
@@ -278,6 +283,12 @@ func c06(c *Ctx) {
 		scs = append(scs, LifeScenario{Cause: "close", Closers: 1, Flood: true, Track: tr, ConnectAgain: "early"})
 		tags = append(tags, "connect-again")
 	}
+	// flood protection ON and saturated: the send goroutine sits in a hold, the queue is full, a handler is blocked on it,
+	// and then the connection ends (context cancelled, Close, EOF): the teardown still happens, once
+	for _, cause := range []string{"cancel", "close", "eof"} {
+		scs = append(scs, LifeScenario{Cause: cause, Closers: 1, Flood: false, UseCtx: true, OutBacklog: 45, OutFrom: "handler"})
+		tags = append(tags, "flood-hold+full-queue+"+cause)
+	}
 	// Config.Timeout set to a small value while a foreground handler keeps working for longer than that after the
 	// connection has begun to go down: the teardown still waits for it (Timeout bounds the dial and the ping, nothing else)
 	for _, cause := range []string{"close", "eof"} {
@@ -390,6 +401,12 @@ func c07(c *Ctx) {
 		}
 		scs = append(scs, sc)
 		tags = append(tags, tag)
+	}
+	// flood protection ON and saturated: the send goroutine sits in a hold, the queue is full, a handler is blocked on it,
+	// and then the connection ends (context cancelled, Close, EOF): the teardown still happens, once
+	for _, cause := range []string{"cancel", "close", "eof"} {
+		scs = append(scs, LifeScenario{Cause: cause, Closers: 1, Flood: false, UseCtx: true, OutBacklog: 45, OutFrom: "handler"})
+		tags = append(tags, "flood-hold+full-queue+"+cause)
 	}
 	// Config.Timeout set to a small value while a foreground handler keeps working for longer than that after the
 	// connection has begun to go down: the teardown still waits for it (Timeout bounds the dial and the ping, nothing else)
